@@ -361,6 +361,6 @@ def check(spec, ctx):
 
 
 SUBS = [Sub(f"metrics_{t}", check, strategy=make_case(t), quick=1200, thorough=30000, min_nontrivial=0.02) for t in TASKS] + [
-    Sub(f"big_vocabulary_{t}", check, strategy=make_case(t, big=True), quick=60, thorough=1500, min_nontrivial=0.0)
+    Sub(f"big_vocabulary_{t}", check, strategy=make_case(t, big=True), quick=160, thorough=3000, min_nontrivial=0.0)
     for t in ("sound_event_detection", "clip_classification", "sound_event_classification")
 ]
